@@ -45,7 +45,7 @@ static std::string outcome_json(const std::string &prop, uint64_t idx, uint64_t 
     s += "\"viol\":[";
     for (size_t i = 0; i < o.viol.size(); ++i) {
         if (i) s += ",";
-        s += "{\"prop\":\"" + o.viol[i].prop + "\",\"cls\":\"" + json_escape(o.viol[i].cls) + "\",\"detail\":\"" + json_escape(o.viol[i].detail) + "\",\"op\":" + std::to_string(o.viol[i].op) + "}";
+        s += "{\"prop\":\"" + o.viol[i].prop + "\",\"cls\":\"" + json_escape(o.viol[i].cls) + "\",\"detail\":\"" + json_escape(o.viol[i].detail) + "\",\"op\":" + std::to_string(o.viol[i].op) + ",\"f_op\":" + std::to_string(o.viol[i].f_op) + ",\"f_w\":" + std::to_string(o.viol[i].f_w) + ",\"f_b\":" + std::to_string(o.viol[i].f_b) + ",\"f_k\":" + std::to_string(o.viol[i].f_k) + ",\"f_alter\":\"" + json_escape(o.viol[i].f_alter) + "\"}";
     }
     s += "],\"ctr\":{";
     bool first = true;
